@@ -441,4 +441,18 @@ pub mod verif_hooks {
             }
         }
     }
+    /// The same driver for any cloneable iterator the harness builds (e.g. one with an inexact `size_hint`).
+    pub fn group_by_iter<I: Iterator<Item = u8> + Clone, K: PartialEq + Copy>(
+        iter: I,
+        get_key: impl FnMut(&u8) -> K,
+        mut on_group: impl FnMut(K, usize),
+        mut on_item: impl FnMut(u8),
+    ) {
+        for group in iter.revisitable_group_by(get_key) {
+            on_group(group.key, group.len);
+            for x in group {
+                on_item(x);
+            }
+        }
+    }
 }
